@@ -715,10 +715,301 @@ mod v_iface_sixlowpan {
         check_compress(&s, &f, &r802, pkt, &stale, 0);
     }
 
+    // ------------------------------------------------------------------ UDP NHC port/length arithmetic for ALL ports
+    /// real `SixlowpanUdpNhcRepr::{header_len, emit}` against the RFC 6282 4.3.3 encoding, ports symbolic inside class p
+    fn nhc_emit_case(p: u8) {
+        let s = sh(2, LlElided, Ext, LlElided, Ext, nhc(p), 4);
+        let f = any_fields(&s);
+        assume_sender_picks(&s, &f);
+        let mut t = [0u8; TL];
+        let lay = tmpl(&s, &f, &mut t);
+        // NHC part of the template: t[2..lay.len]
+        let n = lay.len - 2;
+        let repr = SixlowpanUdpNhcRepr(UdpRepr { src_port: f.sport, dst_port: f.dport });
+        let hl = repr.header_len();
+        assert!(hl == lay.hdr - 2, "prop:c20_udp_nhc_header_len");
+        let stale: [u8; 16] = kani::any();
+        let mut buf = stale;
+        let data = [f.up[0], f.up[1], f.up[2], f.up[3]];
+        let src = Ipv6Address::from_octets(f.src);
+        let dst = Ipv6Address::from_octets(f.dst);
+        repr.emit(
+            &mut SixlowpanUdpNhcPacket::new_unchecked(&mut buf[..n]),
+            &src,
+            &dst,
+            4,
+            |b| b.copy_from_slice(&data),
+            &ChecksumCapabilities::ignored(),
+        );
+        crate::vdump!("ports {:04x} {:04x}\nGOT      {:02x?}\nTEMPLATE {:02x?}", f.sport, f.dport, &buf[..n], &t[2..lay.len]);
+        let k = any_lt(16);
+        kani::assume(k < n);
+        if k == 0 {
+            assert!(buf[0] & 0x04 == 0, "prop:c20_udp_nhc_checksum_bit_matches_layout");
+            assert!(buf[0] | 0x04 == t[2] | 0x04, "prop:c20_compressed_bytes_equal_template");
+        } else if k + 2 == lay.ck_at || k + 2 == lay.ck_at + 1 {
+            // tx checksumming off: value left to the device
+        } else if k + 2 < lay.ck_at {
+            assert!(buf[k] == t[k + 2], "prop:c20_compressed_udp_ports_equal_template");
+        } else {
+            assert!(buf[k] == t[k + 2], "prop:c20_compressed_bytes_equal_template");
+        }
+        kani::cover!(k == 1 && f.sport != f.dport, "first port octet compared");
+        kani::cover!(k == n - 1, "last payload octet compared");
+    }
+
+    /// RFC 768 / RFC 8200 8.1 checksum of a UDP datagram over IPv6, written independently (32-bit accumulate, fold)
+    fn ref_udp_checksum(src: &[u8; 16], dst: &[u8; 16], sport: u16, dport: u16, data: &[u8; 2]) -> u16 {
+        let mut acc: u32 = 0;
+        let mut i = 0;
+        while i < 16 {
+            acc += ((src[i] as u32) << 8) | src[i + 1] as u32;
+            acc += ((dst[i] as u32) << 8) | dst[i + 1] as u32;
+            i += 2;
+        }
+        let len = 8 + 2u32;
+        acc += len; // upper-layer packet length
+        acc += 17; // next header
+        acc += sport as u32;
+        acc += dport as u32;
+        acc += len; // UDP length field
+        acc += ((data[0] as u32) << 8) | data[1] as u32;
+        acc = (acc & 0xffff) + (acc >> 16);
+        acc = (acc & 0xffff) + (acc >> 16);
+        let c = !(acc as u16);
+        if c == 0 { 0xffff } else { c }
+    }
+
+    // ------------------------------------------------------------------ 3. arbitrary bytes (C03 + "otherwise nothing is delivered")
+    fn any_ll_opt() -> Option<Ieee802154Address> {
+        // every value `Ieee802154Repr::parse` can produce: absent addressing mode, reserved mode / frame version (None)
+        match kani::any::<u8>() & 3 {
+            0 => None,
+            1 => Some(Ieee802154Address::Absent),
+            2 => Some(Ieee802154Address::Short(kani::any())),
+            _ => Some(Ieee802154Address::Extended(kani::any())),
+        }
+    }
+
+    /// IPHC octets b0 b1 fixed, `n` further octets arbitrary, any prefix length of that
+    fn free_case<const N: usize>(b0: u8, b1: u8) {
+        let mut bytes: [u8; N] = kani::any();
+        bytes[0] = b0;
+        bytes[1] = b1;
+        let len = any_le(N);
+        let r802 = ieee(any_ll_opt(), any_ll_opt());
+        let ctx = [SixlowpanAddressContext(kani::any())];
+        let nctx = any_le(1);
+        // fragmented: `process_sixlowpan_fragment` passes datagram_size (40..=buffer) and the 256-octet reassembly buffer;
+        // unfragmented: None and the 1500-octet scratch buffer.  128 octets are more than 14 input octets can expand to.
+        let total = if kani::any() {
+            let t = any_le(crate::config::REASSEMBLY_BUFFER_SIZE);
+            kani::assume(t >= 40);
+            Some(t)
+        } else {
+            None
+        };
+        let mut out = [0u8; 128];
+        crate::vdump!("INPUT {:02x?} total_len={:?} ll_src={:?} ll_dst={:?} contexts={}", &bytes[..len], total, r802.src_addr, r802.dst_addr, nctx);
+        let r = InterfaceInner::sixlowpan_to_ipv6(&ctx[..nctx], &r802, &bytes[..len], total, &mut out[..]);
+        crate::vdump!("RESULT {:?}", r);
+        if let Ok(l) = r {
+            assert!(l >= 40 && l <= 128, "prop:c20_decompressed_length_within_buffer");
+        }
+        kani::cover!(r.is_ok() && len == N, "all octets used, accepted");
+        kani::cover!(r.is_err() && len == N, "all octets used, rejected");
+    }
+
+    // ------------------------------------------------------------------ 4. fragmentation on transmit
+    /// 802.15.4 header of the frames smoltcp builds here: FC(2) seq(1) dst PAN(2) dst ext(8) src ext(8), PAN ID compression
+    const MAC: usize = 21;
+    /// compressed headers of the fragmentation harnesses' datagram: IPHC 7e 33 | NHC f0, ports in full, checksum
+    const FH: usize = 9;
+    /// uncompressed (40 + 8) minus compressed header size
+    const DIFF: usize = 48 - FH;
+    /// RFC 4944 5.3: all fragments but the last carry a multiple of 8 octets of the UNCOMPRESSED datagram
+    const F1_LEN: usize = (125 - MAC - 4 + DIFF) / 8 * 8 - DIFF; // 97 compressed octets = 136 uncompressed
+    const FN_LEN: usize = (125 - MAC - 5) / 8 * 8; // 96
+    const TXN: usize = 128;
+
+    fn not_short_form(b: &[u8; 8]) -> bool {
+        let i = iid(Ext, b);
+        !(i[0] == 0 && i[1] == 0 && i[2] == 0 && i[3] == 0xff && i[4] == 0xfe && i[5] == 0)
+    }
+
+    fn ll_ip(b: &[u8; 8]) -> Ipv6Address {
+        let mut a = [0u8; 16];
+        a[..8].copy_from_slice(&LL_PREFIX);
+        a[8..].copy_from_slice(&iid(Ext, b));
+        Ipv6Address::from_octets(a)
+    }
+
+    macro_rules! lowpan_env {
+        ($dev:ident, $iface:ident, $hw:expr) => {
+            let mut $dev = NullDev { medium: Medium::Ieee802154, mtu: 125, checksum: ChecksumCapabilities::ignored() };
+            let mut cfg = Config::new(HardwareAddress::Ieee802154(Ieee802154Address::Extended($hw)));
+            cfg.pan_id = Some(Ieee802154Pan(0xabcd));
+            let mut $iface = Interface::new(cfg, &mut $dev, Instant::from_millis(0));
+        };
+    }
+
+    /// octet k of the compressed datagram (ports 0x1234 -> 0xabcd); k = 7, 8 (checksum) excluded by the callers
+    fn c_byte<const L: usize>(k: usize, payload: &[u8; L]) -> u8 {
+        match k {
+            0 => 0x7e,
+            1 => 0x33,
+            2 => 0xf0,
+            3 => 0x12,
+            4 => 0x34,
+            5 => 0xab,
+            6 => 0xcd,
+            7 | 8 => 0,
+            _ => payload[k - FH],
+        }
+    }
+
+    /// frame `idx` (0-based) of the datagram must be: MAC header, FRAG1/FRAGN header, compressed octets lo..hi
+    fn check_frame<const L: usize>(buf: &[u8; TXN], len: usize, idx: usize, lo: usize, hi: usize, tag: u16, seq0: u8, hw: &[u8; 8], peer: &[u8; 8], payload: &[u8; L]) {
+        let size = 48 + L;
+        let fh = if idx == 0 { 4 } else { 5 };
+        crate::vdump!("frame {} len={} {:02x?}", idx, len, &buf[..len]);
+        assert!(len <= 125, "prop:c20_frame_fits_802154");
+        assert!(len == MAC + fh + (hi - lo), "prop:c20_fragment_frame_length");
+        // 802.15.4: data frame, PAN ID compression, extended addresses, 2003 frame version; addresses little-endian
+        assert!(buf[0] == 0x41 && buf[1] == 0xcc && buf[2] == seq0.wrapping_add(idx as u8) && buf[3] == 0xcd && buf[4] == 0xab, "prop:c20_802154_header");
+        let j = any_lt(8);
+        assert!(buf[5 + j] == peer[7 - j] && buf[13 + j] == hw[7 - j], "prop:c20_802154_addresses");
+        let d = if idx == 0 { 0xc0 } else { 0xe0 };
+        assert!(buf[MAC] == d | (size >> 8) as u8 && buf[MAC + 1] == size as u8, "prop:c20_fragment_datagram_size");
+        assert!(buf[MAC + 2] == (tag >> 8) as u8 && buf[MAC + 3] == tag as u8, "prop:c20_fragment_datagram_tag");
+        if idx > 0 {
+            assert!((lo + DIFF) % 8 == 0 && buf[MAC + 4] as usize == (lo + DIFF) / 8, "prop:c20_fragment_offset_in_uncompressed_octets");
+        }
+        let k = any_lt(FH + L);
+        kani::assume(k >= lo && k < hi && k != 7 && k != 8);
+        assert!(buf[MAC + fh + (k - lo)] == c_byte(k, payload), "prop:c20_fragments_tile_the_compressed_datagram");
+    }
+
+    fn frag_tx_case<const L: usize>(nfrag: usize) {
+        let hw: [u8; 8] = kani::any();
+        let peer: [u8; 8] = kani::any();
+        kani::assume(not_short_form(&hw) && not_short_form(&peer));
+        lowpan_env!(dev, iface, hw);
+        let Interface { inner, fragmenter, .. } = &mut iface;
+        let payload: [u8; L] = kani::any();
+        let pkt = Packet::new_ipv6(
+            Ipv6Repr { src_addr: ll_ip(&hw), dst_addr: ll_ip(&peer), next_header: IpProtocol::Udp, payload_len: 8 + L, hop_limit: 64 },
+            IpPayload::Udp(UdpRepr { src_port: 0x1234, dst_port: 0xabcd }, &payload[..]),
+        );
+        let total = FH + L;
+        let tag = inner.tag;
+        let seq0 = inner.sequence_no;
+        let mut tx_a = TxState::<TXN>::new();
+        let mut tx_b = TxState::<TXN>::new();
+        inner.dispatch_ieee802154(Ieee802154Address::Extended(peer), CapTx { st: &mut tx_a }, PacketMeta::default(), pkt, fragmenter);
+        assert!(tx_a.frames == 1, "prop:c20_first_fragment_sent");
+        check_frame(&tx_a.buf0, tx_a.len0, 0, 0, F1_LEN, tag, seq0, &hw, &peer, &payload);
+        assert!(!fragmenter.finished() && !fragmenter.is_empty(), "prop:c20_fragmenter_holds_the_rest");
+        inner.dispatch_ieee802154_frag(CapTx { st: &mut tx_a }, fragmenter);
+        let hi1 = if total < F1_LEN + FN_LEN { total } else { F1_LEN + FN_LEN };
+        check_frame(&tx_a.buf1, tx_a.len1, 1, F1_LEN, hi1, tag, seq0, &hw, &peer, &payload);
+        if nfrag == 3 {
+            assert!(!fragmenter.finished(), "prop:c20_fragmenter_holds_the_rest");
+            inner.dispatch_ieee802154_frag(CapTx { st: &mut tx_b }, fragmenter);
+            check_frame(&tx_b.buf0, tx_b.len0, 2, F1_LEN + FN_LEN, total, tag, seq0, &hw, &peer, &payload);
+        }
+        // every octet of the compressed datagram went out exactly once
+        assert!(fragmenter.finished(), "prop:c20_all_fragments_sent");
+        kani::cover!(tx_a.frames == 2 && tx_a.len1 > MAC + 5, "second fragment carries data");
+        kani::cover!(payload[L - 1] != payload[0], "payload varies");
+    }
+
+    // ------------------------------------------------------------------ 5. reassembly
+    /// ghost datagram of the reassembly harness: fe80::iid(sll) -> fe80::iid(dll), UDP, 16 data octets: 64 octets,
+    /// sent as FRAG1 (compressed headers only: uncompressed 0..48), FRAGN offset 6 (48..56), FRAGN offset 7 (56..64);
+    /// all three frames are 13 octets long
+    const GD: usize = 64;
+    #[derive(Clone, Copy)]
+    struct GhostD {
+        sll: [u8; 8],
+        dll: [u8; 8],
+        sport: u16,
+        dport: u16,
+        ck: [u8; 2],
+        data: [u8; 16],
+        tag: u16,
+    }
+
+    fn frag_frame(g: &GhostD, which: u8, size: u16, tag: u16, offset: u8) -> [u8; 13] {
+        let sh = (size >> 8) as u8 & 0x07;
+        let sl = size as u8;
+        let th = (tag >> 8) as u8;
+        let tl = tag as u8;
+        let d = &g.data;
+        if which == 0 {
+            [0xc0 | sh, sl, th, tl, 0x7e, 0x33, 0xf0, (g.sport >> 8) as u8, g.sport as u8, (g.dport >> 8) as u8, g.dport as u8, g.ck[0], g.ck[1]]
+        } else if which == 1 {
+            [0xe0 | sh, sl, th, tl, offset, d[0], d[1], d[2], d[3], d[4], d[5], d[6], d[7]]
+        } else {
+            [0xe0 | sh, sl, th, tl, offset, d[8], d[9], d[10], d[11], d[12], d[13], d[14], d[15]]
+        }
+    }
+
+    fn ghost_byte(g: &GhostD, k: usize) -> u8 {
+        let s = iid(Ext, &g.sll);
+        let d = iid(Ext, &g.dll);
+        match k {
+            0 => 0x60,
+            1 | 2 | 3 | 4 => 0,
+            5 => 24,
+            6 => 17,
+            7 => 64,
+            8 | 24 => 0xfe,
+            9 | 25 => 0x80,
+            10..=15 | 26..=31 => 0,
+            16..=23 => s[k - 16],
+            32..=39 => d[k - 32],
+            40 => (g.sport >> 8) as u8,
+            41 => g.sport as u8,
+            42 => (g.dport >> 8) as u8,
+            43 => g.dport as u8,
+            44 => 0,
+            45 => 24,
+            46 => g.ck[0],
+            47 => g.ck[1],
+            _ => g.data[k - 48],
+        }
+    }
+
+    /// one received fragment; returns (delivered, length, copy if the length is GD)
+    fn rx_feed(inner: &mut InterfaceInner, fb: &mut FragmentsBuffer, r802: &Ieee802154Repr, fr: &[u8; 13]) -> (bool, usize, [u8; GD]) {
+        let mut copy = [0u8; GD];
+        crate::vdump!("FRAGMENT {:02x?}", fr);
+        match inner.process_sixlowpan_fragment(r802, &fr[..], fb) {
+            Some(d) => {
+                let n = d.len();
+                crate::vdump!("DELIVERED {} octets {:02x?}", n, d);
+                if n == GD {
+                    copy.copy_from_slice(d);
+                }
+                (true, n, copy)
+            }
+            None => (false, 0, copy),
+        }
+    }
+
+    fn assert_is_ghost(g: &GhostD, n: usize, d: &[u8; GD]) {
+        assert!(n == GD, "prop:c20_reassembled_length");
+        let k = any_lt(GD);
+        if k != 46 && k != 47 {
+            assert!(d[k] == ghost_byte(g, k), "prop:c20_reassembled_datagram_equals_sent_datagram");
+        }
+    }
+
     use Am::*;
     use Ll::{Ext, Short};
 
-    // ---- shapes the stack itself emits (quick tier), both directions
+    // ---- shapes the stack itself can emit (TF=11, CID=0, stateless address modes), both directions
     const S_UDP4: Shape = sh(2, LlElided, Ext, LlElided, Ext, nhc(3), 4);
     const S_UDP0: Shape = sh(2, LlElided, Ext, Full, Ext, nhc(0), 4);
     const S_UDP1: Shape = sh(0, Full, Ext, Full, Ext, nhc(1), 3);
@@ -730,16 +1021,536 @@ mod v_iface_sixlowpan {
     const S_UDP_MCFULL: Shape = sh(2, LlElided, Ext, McFull, Short, nhc(0), 1);
     const S_TCP: Shape = sh(2, Full, Ext, Full, Ext, TCP, 4);
     const S_TCP_LL: Shape = sh(2, LlElided, Ext, LlElided, Short, TCP, 2);
+    const S_UDP_SHORT64: Shape = sh(0, Ll64, Short, Ll16, Short, nhc(0), 0);
+    const S_ICMP_GE: Shape = sh(2, Full, Short, LlElided, Ext, ICMP, 1);
 
-    // @harness props=C20 cfg=KL tier=q to=600 mem=6 unwind=20 opts=nomem covers=2 funcs=InterfaceInner::compressed_packet_size;InterfaceInner::ipv6_to_sixlowpan;SixlowpanIphcRepr::emit;SixlowpanUdpNhcRepr::emit bounds=shape_TF11_HLIM64_src/dst_elided_from_extended_link_addresses_UDP-NHC_both_ports_0xf0bX;_payload_4_octets;_all_field_values_symbolic;_tx_checksum_off;_stale_buffer_contents_arbitrary
+    // @harness props=C20 cfg=KL tier=q to=900 mem=4 unwind=20 opts=nomem covers=2 funcs=InterfaceInner::compressed_packet_size;InterfaceInner::ipv6_to_sixlowpan;SixlowpanIphcRepr::buffer_len;SixlowpanIphcRepr::emit;SixlowpanUdpNhcRepr::header_len;SixlowpanUdpNhcRepr::emit bounds=shape_TF=11;_HLIM_64;_src/dst_fe80::IID_elided_from_extended_link_addresses;_UDP-NHC_both_ports_0xf0bX_(4+4_bits);_every_address,_link_address,_hop_limit,_payload_octet_and_the_stale_transmit_buffer_symbolic;_ports_one_representative_pair_of_the_class_(all_ports:_lowpan_nhc_udp_emit_ports*);_payload<=4_octets;_tx_checksumming_off
     #[kani::proof]
     pub(crate) fn lowpan_compress_udp_ports4() {
         compress_udp(S_UDP4);
     }
 
-    // @harness props=C20 cfg=KL tier=q to=600 mem=6 unwind=20 opts=nomem covers=2 funcs=InterfaceInner::sixlowpan_to_ipv6;SixlowpanIphcRepr::parse;SixlowpanUdpNhcRepr::parse;UdpRepr::emit_header;Ipv6Repr::emit bounds=shape_TF11_HLIM64_src/dst_elided_from_extended_link_addresses_UDP-NHC_both_ports_0xf0bX_checksum_inline;_payload_4_octets;_all_field_values_symbolic;_UDP_checksum_field_not_compared_here
+    // @harness props=C20 cfg=KL tier=q to=900 mem=4 unwind=20 opts=nomem covers=2 funcs=InterfaceInner::compressed_packet_size;InterfaceInner::ipv6_to_sixlowpan;SixlowpanIphcRepr::buffer_len;SixlowpanIphcRepr::emit;SixlowpanUdpNhcRepr::header_len;SixlowpanUdpNhcRepr::emit bounds=shape_TF=11;_HLIM_64;_src_elided_(extended_link_address);_dst_any_global_128_bits_in-line;_UDP-NHC_both_ports_in_full;_every_address,_link_address,_hop_limit,_payload_octet_and_the_stale_transmit_buffer_symbolic;_ports_one_representative_pair_of_the_class_(all_ports:_lowpan_nhc_udp_emit_ports*);_payload<=4_octets;_tx_checksumming_off
+    #[kani::proof]
+    pub(crate) fn lowpan_compress_udp_ports0() {
+        compress_udp(S_UDP0);
+    }
+
+    // @harness props=C20 cfg=KL tier=q to=900 mem=4 unwind=20 opts=nomem covers=2 funcs=InterfaceInner::compressed_packet_size;InterfaceInner::ipv6_to_sixlowpan;SixlowpanIphcRepr::buffer_len;SixlowpanIphcRepr::emit;SixlowpanUdpNhcRepr::header_len;SixlowpanUdpNhcRepr::emit bounds=shape_TF=11;_hop_limit_in-line;_src/dst_any_global_128_bits_in-line;_UDP-NHC_dst_port_0xf0XX;_every_address,_link_address,_hop_limit,_payload_octet_and_the_stale_transmit_buffer_symbolic;_ports_one_representative_pair_of_the_class_(all_ports:_lowpan_nhc_udp_emit_ports*);_payload<=4_octets;_tx_checksumming_off
+    #[kani::proof]
+    pub(crate) fn lowpan_compress_udp_ports1() {
+        compress_udp(S_UDP1);
+    }
+
+    // @harness props=C20 cfg=KL tier=q to=900 mem=4 unwind=20 opts=nomem covers=2 funcs=InterfaceInner::compressed_packet_size;InterfaceInner::ipv6_to_sixlowpan;SixlowpanIphcRepr::buffer_len;SixlowpanIphcRepr::emit;SixlowpanUdpNhcRepr::header_len;SixlowpanUdpNhcRepr::emit bounds=shape_TF=11;_HLIM_255;_src/dst_fe80::/64_+_64_bits_in-line;_UDP-NHC_src_port_0xf0XX;_every_address,_link_address,_hop_limit,_payload_octet_and_the_stale_transmit_buffer_symbolic;_ports_one_representative_pair_of_the_class_(all_ports:_lowpan_nhc_udp_emit_ports*);_payload<=4_octets;_tx_checksumming_off
+    #[kani::proof]
+    pub(crate) fn lowpan_compress_udp_ports2() {
+        compress_udp(S_UDP2);
+    }
+
+    // @harness props=C20 cfg=KL tier=q to=900 mem=4 unwind=20 opts=nomem covers=2 funcs=InterfaceInner::compressed_packet_size;InterfaceInner::ipv6_to_sixlowpan;SixlowpanIphcRepr::buffer_len;SixlowpanIphcRepr::emit;Icmpv6Repr::emit bounds=shape_TF=11;_HLIM_1;_src_elided_from_short_link_address;_dst_fe80::ff:fe00:XXXX_16_bits_in-line;_ICMPv6_echo;_every_address,_link_address,_hop_limit,_payload_octet_and_the_stale_transmit_buffer_symbolic;_echo_ident/seq_concrete;_payload<=4_octets;_tx_checksumming_off
+    #[kani::proof]
+    pub(crate) fn lowpan_compress_icmp_short() {
+        compress_icmp(S_ICMP_SHORT);
+    }
+
+    // @harness props=C20 cfg=KL tier=q to=900 mem=4 unwind=20 opts=nomem covers=2 funcs=InterfaceInner::compressed_packet_size;InterfaceInner::ipv6_to_sixlowpan;SixlowpanIphcRepr::buffer_len;SixlowpanIphcRepr::emit;Icmpv6Repr::emit bounds=shape_TF=11;_HLIM_255;_src_unspecified_(SAC=1_SAM=00);_dst_ff02::XX_(M=1_DAM=11);_ICMPv6_echo;_every_address,_link_address,_hop_limit,_payload_octet_and_the_stale_transmit_buffer_symbolic;_echo_ident/seq_concrete;_payload<=4_octets;_tx_checksumming_off
+    #[kani::proof]
+    pub(crate) fn lowpan_compress_icmp_mc8() {
+        compress_icmp(S_ICMP_MC8);
+    }
+
+    // @harness props=C20 cfg=KL tier=q to=900 mem=4 unwind=20 opts=nomem covers=2 funcs=InterfaceInner::compressed_packet_size;InterfaceInner::ipv6_to_sixlowpan;SixlowpanIphcRepr::buffer_len;SixlowpanIphcRepr::emit;Icmpv6Repr::emit bounds=shape_TF=11;_HLIM_64;_src_fe80::ff:fe00:XXXX_16_bits_in-line;_dst_ffXX::XX:XXXX_(M=1_DAM=10);_ICMPv6_echo;_every_address,_link_address,_hop_limit,_payload_octet_and_the_stale_transmit_buffer_symbolic;_echo_ident/seq_concrete;_payload<=4_octets;_tx_checksumming_off
+    #[kani::proof]
+    pub(crate) fn lowpan_compress_icmp_mc32() {
+        compress_icmp(S_ICMP_MC32);
+    }
+
+    // @harness props=C20 cfg=KL tier=q to=900 mem=4 unwind=20 opts=nomem covers=2 funcs=InterfaceInner::compressed_packet_size;InterfaceInner::ipv6_to_sixlowpan;SixlowpanIphcRepr::buffer_len;SixlowpanIphcRepr::emit;Icmpv6Repr::emit bounds=shape_TF=11;_HLIM_255;_src_any_global_in-line;_dst_ffXX::XX:XXXX:XXXX_(M=1_DAM=01,_e.g._solicited-node);_ICMPv6_echo_without_data;_every_address,_link_address,_hop_limit,_payload_octet_and_the_stale_transmit_buffer_symbolic;_echo_ident/seq_concrete;_payload<=4_octets;_tx_checksumming_off
+    #[kani::proof]
+    pub(crate) fn lowpan_compress_icmp_mc48() {
+        compress_icmp(S_ICMP_MC48);
+    }
+
+    // @harness props=C20 cfg=KL tier=q to=900 mem=4 unwind=20 opts=nomem covers=2 funcs=InterfaceInner::compressed_packet_size;InterfaceInner::ipv6_to_sixlowpan;SixlowpanIphcRepr::buffer_len;SixlowpanIphcRepr::emit;SixlowpanUdpNhcRepr::header_len;SixlowpanUdpNhcRepr::emit bounds=shape_TF=11;_HLIM_64;_src_elided;_dst_any_other_multicast_address_128_bits_in-line_(M=1_DAM=00);_UDP-NHC_ports_in_full;_every_address,_link_address,_hop_limit,_payload_octet_and_the_stale_transmit_buffer_symbolic;_ports_one_representative_pair_of_the_class_(all_ports:_lowpan_nhc_udp_emit_ports*);_payload<=4_octets;_tx_checksumming_off
+    #[kani::proof]
+    pub(crate) fn lowpan_compress_udp_mcfull() {
+        compress_udp(S_UDP_MCFULL);
+    }
+
+    // @harness props=C20 cfg=KL tier=q to=900 mem=4 unwind=20 opts=nomem covers=2 funcs=InterfaceInner::compressed_packet_size;InterfaceInner::ipv6_to_sixlowpan;SixlowpanIphcRepr::buffer_len;SixlowpanIphcRepr::emit;TcpRepr::emit bounds=shape_TF=11;_HLIM_64;_src/dst_any_global_in-line;_TCP_header_without_options_+_4_octets;_every_address,_link_address,_hop_limit,_payload_octet_and_the_stale_transmit_buffer_symbolic;_TCP_header_fields_concrete;_payload<=4_octets;_tx_checksumming_off
+    #[kani::proof]
+    pub(crate) fn lowpan_compress_tcp_global() {
+        compress_tcp(S_TCP);
+    }
+
+    // @harness props=C20 cfg=KL tier=t to=900 mem=4 unwind=20 opts=nomem covers=2 funcs=InterfaceInner::compressed_packet_size;InterfaceInner::ipv6_to_sixlowpan;SixlowpanIphcRepr::buffer_len;SixlowpanIphcRepr::emit;TcpRepr::emit bounds=shape_TF=11;_HLIM_64;_src_elided_(extended),_dst_elided_(short_link_address);_TCP_+_2_octets;_every_address,_link_address,_hop_limit,_payload_octet_and_the_stale_transmit_buffer_symbolic;_TCP_header_fields_concrete;_payload<=4_octets;_tx_checksumming_off
+    #[kani::proof]
+    pub(crate) fn lowpan_compress_tcp_ll() {
+        compress_tcp(S_TCP_LL);
+    }
+
+    // @harness props=C20 cfg=KL tier=t to=900 mem=4 unwind=20 opts=nomem covers=2 funcs=InterfaceInner::compressed_packet_size;InterfaceInner::ipv6_to_sixlowpan;SixlowpanIphcRepr::buffer_len;SixlowpanIphcRepr::emit;SixlowpanUdpNhcRepr::header_len;SixlowpanUdpNhcRepr::emit bounds=shape_TF=11;_hop_limit_in-line;_src_fe80::/64+64_bits;_dst_16_bits_in-line;_short_link_addresses;_UDP_without_data;_every_address,_link_address,_hop_limit,_payload_octet_and_the_stale_transmit_buffer_symbolic;_ports_one_representative_pair_of_the_class_(all_ports:_lowpan_nhc_udp_emit_ports*);_payload<=4_octets;_tx_checksumming_off
+    #[kani::proof]
+    pub(crate) fn lowpan_compress_udp_short_ll64() {
+        compress_udp(S_UDP_SHORT64);
+    }
+
+    // @harness props=C20 cfg=KL tier=t to=900 mem=4 unwind=20 opts=nomem covers=2 funcs=InterfaceInner::compressed_packet_size;InterfaceInner::ipv6_to_sixlowpan;SixlowpanIphcRepr::buffer_len;SixlowpanIphcRepr::emit;Icmpv6Repr::emit bounds=shape_TF=11;_HLIM_64;_src_global_in-line;_dst_elided_from_extended_link_address;_ICMPv6_echo;_every_address,_link_address,_hop_limit,_payload_octet_and_the_stale_transmit_buffer_symbolic;_echo_ident/seq_concrete;_payload<=4_octets;_tx_checksumming_off
+    #[kani::proof]
+    pub(crate) fn lowpan_compress_icmp_global_elided() {
+        compress_icmp(S_ICMP_GE);
+    }
+
+    // @harness props=C20 cfg=KL tier=q to=900 mem=4 unwind=20 opts=nomem covers=2 funcs=InterfaceInner::sixlowpan_to_ipv6;SixlowpanIphcRepr::parse;SixlowpanUnresolvedAddress::resolve;Ipv6Repr::emit;SixlowpanUdpNhcRepr::parse;UdpRepr::emit_header bounds=shape_TF=11;_HLIM_64;_src/dst_fe80::IID_elided_from_extended_link_addresses;_UDP-NHC_both_ports_0xf0bX_(4+4_bits);_every_field_value_symbolic;_all_ports_of_the_class_symbolic;_UDP_checksum_field_compared_in_lowpan_decompress_udp_checksum_kept;_payload<=4_octets;_output_buffer_64_octets_with_arbitrary_previous_contents
     #[kani::proof]
     pub(crate) fn lowpan_decompress_udp_ports4() {
         decompress_case(S_UDP4);
+    }
+
+    // @harness props=C20 cfg=KL tier=q to=900 mem=4 unwind=20 opts=nomem covers=2 funcs=InterfaceInner::sixlowpan_to_ipv6;SixlowpanIphcRepr::parse;SixlowpanUnresolvedAddress::resolve;Ipv6Repr::emit;SixlowpanUdpNhcRepr::parse;UdpRepr::emit_header bounds=shape_TF=11;_HLIM_64;_src_elided_(extended_link_address);_dst_any_global_128_bits_in-line;_UDP-NHC_both_ports_in_full;_every_field_value_symbolic;_all_ports_of_the_class_symbolic;_UDP_checksum_field_compared_in_lowpan_decompress_udp_checksum_kept;_payload<=4_octets;_output_buffer_64_octets_with_arbitrary_previous_contents
+    #[kani::proof]
+    pub(crate) fn lowpan_decompress_udp_ports0() {
+        decompress_case(S_UDP0);
+    }
+
+    // @harness props=C20 cfg=KL tier=q to=900 mem=4 unwind=20 opts=nomem covers=2 funcs=InterfaceInner::sixlowpan_to_ipv6;SixlowpanIphcRepr::parse;SixlowpanUnresolvedAddress::resolve;Ipv6Repr::emit;SixlowpanUdpNhcRepr::parse;UdpRepr::emit_header bounds=shape_TF=11;_hop_limit_in-line;_src/dst_any_global_128_bits_in-line;_UDP-NHC_dst_port_0xf0XX;_every_field_value_symbolic;_all_ports_of_the_class_symbolic;_UDP_checksum_field_compared_in_lowpan_decompress_udp_checksum_kept;_payload<=4_octets;_output_buffer_64_octets_with_arbitrary_previous_contents
+    #[kani::proof]
+    pub(crate) fn lowpan_decompress_udp_ports1() {
+        decompress_case(S_UDP1);
+    }
+
+    // @harness props=C20 cfg=KL tier=q to=900 mem=4 unwind=20 opts=nomem covers=2 funcs=InterfaceInner::sixlowpan_to_ipv6;SixlowpanIphcRepr::parse;SixlowpanUnresolvedAddress::resolve;Ipv6Repr::emit;SixlowpanUdpNhcRepr::parse;UdpRepr::emit_header bounds=shape_TF=11;_HLIM_255;_src/dst_fe80::/64_+_64_bits_in-line;_UDP-NHC_src_port_0xf0XX;_every_field_value_symbolic;_all_ports_of_the_class_symbolic;_UDP_checksum_field_compared_in_lowpan_decompress_udp_checksum_kept;_payload<=4_octets;_output_buffer_64_octets_with_arbitrary_previous_contents
+    #[kani::proof]
+    pub(crate) fn lowpan_decompress_udp_ports2() {
+        decompress_case(S_UDP2);
+    }
+
+    // @harness props=C20 cfg=KL tier=q to=900 mem=4 unwind=20 opts=nomem covers=2 funcs=InterfaceInner::sixlowpan_to_ipv6;SixlowpanIphcRepr::parse;SixlowpanUnresolvedAddress::resolve;Ipv6Repr::emit bounds=shape_TF=11;_HLIM_1;_src_elided_from_short_link_address;_dst_fe80::ff:fe00:XXXX_16_bits_in-line;_ICMPv6_echo;_every_field_value_symbolic;_upper-layer_octets_arbitrary;_payload<=4_octets;_output_buffer_64_octets_with_arbitrary_previous_contents
+    #[kani::proof]
+    pub(crate) fn lowpan_decompress_icmp_short() {
+        decompress_case(S_ICMP_SHORT);
+    }
+
+    // @harness props=C20 cfg=KL tier=q to=900 mem=4 unwind=20 opts=nomem covers=2 funcs=InterfaceInner::sixlowpan_to_ipv6;SixlowpanIphcRepr::parse;SixlowpanUnresolvedAddress::resolve;Ipv6Repr::emit bounds=shape_TF=11;_HLIM_255;_src_unspecified_(SAC=1_SAM=00);_dst_ff02::XX_(M=1_DAM=11);_ICMPv6_echo;_every_field_value_symbolic;_upper-layer_octets_arbitrary;_payload<=4_octets;_output_buffer_64_octets_with_arbitrary_previous_contents
+    #[kani::proof]
+    pub(crate) fn lowpan_decompress_icmp_mc8() {
+        decompress_case(S_ICMP_MC8);
+    }
+
+    // @harness props=C20 cfg=KL tier=q to=900 mem=4 unwind=20 opts=nomem covers=2 funcs=InterfaceInner::sixlowpan_to_ipv6;SixlowpanIphcRepr::parse;SixlowpanUnresolvedAddress::resolve;Ipv6Repr::emit bounds=shape_TF=11;_HLIM_64;_src_fe80::ff:fe00:XXXX_16_bits_in-line;_dst_ffXX::XX:XXXX_(M=1_DAM=10);_ICMPv6_echo;_every_field_value_symbolic;_upper-layer_octets_arbitrary;_payload<=4_octets;_output_buffer_64_octets_with_arbitrary_previous_contents
+    #[kani::proof]
+    pub(crate) fn lowpan_decompress_icmp_mc32() {
+        decompress_case(S_ICMP_MC32);
+    }
+
+    // @harness props=C20 cfg=KL tier=q to=900 mem=4 unwind=20 opts=nomem covers=2 funcs=InterfaceInner::sixlowpan_to_ipv6;SixlowpanIphcRepr::parse;SixlowpanUnresolvedAddress::resolve;Ipv6Repr::emit bounds=shape_TF=11;_HLIM_255;_src_any_global_in-line;_dst_ffXX::XX:XXXX:XXXX_(M=1_DAM=01,_e.g._solicited-node);_ICMPv6_echo_without_data;_every_field_value_symbolic;_upper-layer_octets_arbitrary;_payload<=4_octets;_output_buffer_64_octets_with_arbitrary_previous_contents
+    #[kani::proof]
+    pub(crate) fn lowpan_decompress_icmp_mc48() {
+        decompress_case(S_ICMP_MC48);
+    }
+
+    // @harness props=C20 cfg=KL tier=q to=900 mem=4 unwind=20 opts=nomem covers=2 funcs=InterfaceInner::sixlowpan_to_ipv6;SixlowpanIphcRepr::parse;SixlowpanUnresolvedAddress::resolve;Ipv6Repr::emit;SixlowpanUdpNhcRepr::parse;UdpRepr::emit_header bounds=shape_TF=11;_HLIM_64;_src_elided;_dst_any_other_multicast_address_128_bits_in-line_(M=1_DAM=00);_UDP-NHC_ports_in_full;_every_field_value_symbolic;_all_ports_of_the_class_symbolic;_UDP_checksum_field_compared_in_lowpan_decompress_udp_checksum_kept;_payload<=4_octets;_output_buffer_64_octets_with_arbitrary_previous_contents
+    #[kani::proof]
+    pub(crate) fn lowpan_decompress_udp_mcfull() {
+        decompress_case(S_UDP_MCFULL);
+    }
+
+    // @harness props=C20 cfg=KL tier=q to=900 mem=4 unwind=20 opts=nomem covers=2 funcs=InterfaceInner::sixlowpan_to_ipv6;SixlowpanIphcRepr::parse;SixlowpanUnresolvedAddress::resolve;Ipv6Repr::emit bounds=shape_TF=11;_HLIM_64;_src/dst_any_global_in-line;_TCP_header_without_options_+_4_octets;_every_field_value_symbolic;_upper-layer_octets_arbitrary;_payload<=4_octets;_output_buffer_64_octets_with_arbitrary_previous_contents
+    #[kani::proof]
+    pub(crate) fn lowpan_decompress_tcp_global() {
+        decompress_case(S_TCP);
+    }
+
+    // @harness props=C20 cfg=KL tier=t to=900 mem=4 unwind=20 opts=nomem covers=2 funcs=InterfaceInner::sixlowpan_to_ipv6;SixlowpanIphcRepr::parse;SixlowpanUnresolvedAddress::resolve;Ipv6Repr::emit bounds=shape_TF=11;_HLIM_64;_src_elided_(extended),_dst_elided_(short_link_address);_TCP_+_2_octets;_every_field_value_symbolic;_upper-layer_octets_arbitrary;_payload<=4_octets;_output_buffer_64_octets_with_arbitrary_previous_contents
+    #[kani::proof]
+    pub(crate) fn lowpan_decompress_tcp_ll() {
+        decompress_case(S_TCP_LL);
+    }
+
+    // @harness props=C20 cfg=KL tier=t to=900 mem=4 unwind=20 opts=nomem covers=2 funcs=InterfaceInner::sixlowpan_to_ipv6;SixlowpanIphcRepr::parse;SixlowpanUnresolvedAddress::resolve;Ipv6Repr::emit;SixlowpanUdpNhcRepr::parse;UdpRepr::emit_header bounds=shape_TF=11;_hop_limit_in-line;_src_fe80::/64+64_bits;_dst_16_bits_in-line;_short_link_addresses;_UDP_without_data;_every_field_value_symbolic;_all_ports_of_the_class_symbolic;_UDP_checksum_field_compared_in_lowpan_decompress_udp_checksum_kept;_payload<=4_octets;_output_buffer_64_octets_with_arbitrary_previous_contents
+    #[kani::proof]
+    pub(crate) fn lowpan_decompress_udp_short_ll64() {
+        decompress_case(S_UDP_SHORT64);
+    }
+
+    // @harness props=C20 cfg=KL tier=t to=900 mem=4 unwind=20 opts=nomem covers=2 funcs=InterfaceInner::sixlowpan_to_ipv6;SixlowpanIphcRepr::parse;SixlowpanUnresolvedAddress::resolve;Ipv6Repr::emit bounds=shape_TF=11;_HLIM_64;_src_global_in-line;_dst_elided_from_extended_link_address;_ICMPv6_echo;_every_field_value_symbolic;_upper-layer_octets_arbitrary;_payload<=4_octets;_output_buffer_64_octets_with_arbitrary_previous_contents
+    #[kani::proof]
+    pub(crate) fn lowpan_decompress_icmp_global_elided() {
+        decompress_case(S_ICMP_GE);
+    }
+
+    // ---- forms only a peer can send (thorough tier): TF != 11, context-based addresses, UDP in-line, C=1
+    // @harness props=C20 cfg=KL tier=t to=900 mem=4 unwind=20 opts=nomem covers=2 funcs=InterfaceInner::sixlowpan_to_ipv6;SixlowpanIphcRepr::parse;SixlowpanUnresolvedAddress::resolve;Ipv6Repr::emit;SixlowpanUdpNhcRepr::parse;UdpRepr::emit_header bounds=receive-only_shape:_TF=00_(ECN+DSCP+flow_label_in-line);_HLIM_64;_addresses_elided;_ICMPv6;_traffic_class/flow_label_themselves_not_compared_(Ipv6Repr_does_not_carry_them);_every_field_value_symbolic;_payload<=4_octets;_one-entry_context_table
+    #[kani::proof]
+    pub(crate) fn lowpan_decompress_tf00() {
+        decompress_case(Shape { tf: 0, hlim: 2, cid: false, src: LlElided, dst: LlElided, sll: Ext, dll: Ext, up: ICMP, plen: 2 });
+    }
+
+    // @harness props=C20 cfg=KL tier=t to=900 mem=4 unwind=20 opts=nomem covers=2 funcs=InterfaceInner::sixlowpan_to_ipv6;SixlowpanIphcRepr::parse;SixlowpanUnresolvedAddress::resolve;Ipv6Repr::emit;SixlowpanUdpNhcRepr::parse;UdpRepr::emit_header bounds=receive-only_shape:_TF=01_(ECN+flow_label);_hop_limit_in-line;_src_64_bits,_dst_16_bits_in-line;_UDP-NHC;_every_field_value_symbolic;_payload<=4_octets;_one-entry_context_table
+    #[kani::proof]
+    pub(crate) fn lowpan_decompress_tf01() {
+        decompress_case(Shape { tf: 1, hlim: 0, cid: false, src: Ll64, dst: Ll16, sll: Ext, dll: Short, up: nhc(0), plen: 2 });
+    }
+
+    // @harness props=C20 cfg=KL tier=t to=900 mem=4 unwind=20 opts=nomem covers=2 funcs=InterfaceInner::sixlowpan_to_ipv6;SixlowpanIphcRepr::parse;SixlowpanUnresolvedAddress::resolve;Ipv6Repr::emit;SixlowpanUdpNhcRepr::parse;UdpRepr::emit_header bounds=receive-only_shape:_TF=10_(ECN+DSCP);_HLIM_255;_src_elided_(short);_dst_ff02::XX;_ICMPv6;_every_field_value_symbolic;_payload<=4_octets;_one-entry_context_table
+    #[kani::proof]
+    pub(crate) fn lowpan_decompress_tf10() {
+        decompress_case(Shape { tf: 2, hlim: 3, cid: false, src: LlElided, dst: Mc8, sll: Short, dll: Short, up: ICMP, plen: 2 });
+    }
+
+    // @harness props=C20 cfg=KL tier=t to=900 mem=4 unwind=20 opts=nomem covers=2 funcs=InterfaceInner::sixlowpan_to_ipv6;SixlowpanIphcRepr::parse;SixlowpanUnresolvedAddress::resolve;Ipv6Repr::emit;SixlowpanUdpNhcRepr::parse;UdpRepr::emit_header bounds=receive-only_shape:_CID=1_SCI=DCI=0;_src/dst_context_prefix_+_IID_from_link_address_(SAC/DAC=1_mode_11);_UDP-NHC_4-bit_ports;_every_field_value_symbolic;_payload<=4_octets;_one-entry_context_table
+    #[kani::proof]
+    pub(crate) fn lowpan_decompress_ctx_elided() {
+        decompress_case(Shape { tf: 3, hlim: 2, cid: true, src: CtxElided, dst: CtxElided, sll: Ext, dll: Short, up: nhc(3), plen: 4 });
+    }
+
+    // @harness props=C20 cfg=KL tier=t to=900 mem=4 unwind=20 opts=nomem covers=2 funcs=InterfaceInner::sixlowpan_to_ipv6;SixlowpanIphcRepr::parse;SixlowpanUnresolvedAddress::resolve;Ipv6Repr::emit;SixlowpanUdpNhcRepr::parse;UdpRepr::emit_header bounds=receive-only_shape:_CID=1;_src/dst_context_prefix_+_64_bits_in-line_(mode_01);_ICMPv6;_every_field_value_symbolic;_payload<=4_octets;_one-entry_context_table
+    #[kani::proof]
+    pub(crate) fn lowpan_decompress_ctx_64() {
+        decompress_case(Shape { tf: 3, hlim: 2, cid: true, src: Ctx64, dst: Ctx64, sll: Ext, dll: Ext, up: ICMP, plen: 2 });
+    }
+
+    // @harness props=C20 cfg=KL tier=t to=900 mem=4 unwind=20 opts=nomem covers=2 funcs=InterfaceInner::sixlowpan_to_ipv6;SixlowpanIphcRepr::parse;SixlowpanUnresolvedAddress::resolve;Ipv6Repr::emit;SixlowpanUdpNhcRepr::parse;UdpRepr::emit_header bounds=receive-only_shape:_CID=1;_src/dst_context_prefix_+_0000:00ff:fe00:XXXX_(mode_10);_ICMPv6;_every_field_value_symbolic;_payload<=4_octets;_one-entry_context_table
+    #[kani::proof]
+    pub(crate) fn lowpan_decompress_ctx_16() {
+        decompress_case(Shape { tf: 3, hlim: 2, cid: true, src: Ctx16, dst: Ctx16, sll: Ext, dll: Ext, up: ICMP, plen: 2 });
+    }
+
+    // @harness props=C20 cfg=KL tier=t to=900 mem=4 unwind=20 opts=nomem covers=2 funcs=InterfaceInner::sixlowpan_to_ipv6;SixlowpanIphcRepr::parse;SixlowpanUnresolvedAddress::resolve;Ipv6Repr::emit;SixlowpanUdpNhcRepr::parse;UdpRepr::emit_header bounds=receive-only_shape:_CID=0_with_SAC=1:_RFC_6282_3.1.1_context_0_is_used;_ICMPv6;_every_field_value_symbolic;_payload<=4_octets;_one-entry_context_table
+    #[kani::proof]
+    pub(crate) fn lowpan_decompress_ctx0_implicit() {
+        decompress_case(Shape { tf: 3, hlim: 2, cid: false, src: CtxElided, dst: LlElided, sll: Ext, dll: Ext, up: ICMP, plen: 2 });
+    }
+
+    // @harness props=C20 cfg=KL tier=t to=900 mem=4 unwind=20 opts=nomem covers=2 funcs=InterfaceInner::sixlowpan_to_ipv6;SixlowpanIphcRepr::parse;SixlowpanUnresolvedAddress::resolve;Ipv6Repr::emit;SixlowpanUdpNhcRepr::parse;UdpRepr::emit_header bounds=receive-only_shape:_NH=0_next_header_17:_uncompressed_UDP_header_carried_verbatim;_every_field_value_symbolic;_payload<=4_octets;_one-entry_context_table
+    #[kani::proof]
+    pub(crate) fn lowpan_decompress_udp_inline() {
+        decompress_case(Shape { tf: 3, hlim: 2, cid: false, src: LlElided, dst: LlElided, sll: Ext, dll: Ext, up: UDP_INLINE, plen: 4 });
+    }
+
+    // @harness props=C20 cfg=KL tier=t to=900 mem=4 unwind=20 opts=nomem covers=2 funcs=InterfaceInner::sixlowpan_to_ipv6;SixlowpanIphcRepr::parse;SixlowpanUnresolvedAddress::resolve;Ipv6Repr::emit;SixlowpanUdpNhcRepr::parse;UdpRepr::emit_header bounds=receive-only_shape:_UDP-NHC_with_C=1_(checksum_elided_by_the_peer);_ports_in_full;_checksum_field_not_compared;_every_field_value_symbolic;_payload<=4_octets;_one-entry_context_table
+    #[kani::proof]
+    pub(crate) fn lowpan_decompress_udp_ck_elided() {
+        decompress_case(Shape { tf: 3, hlim: 2, cid: false, src: LlElided, dst: LlElided, sll: Ext, dll: Ext, up: nhc_elided(0), plen: 4 });
+    }
+
+    // @harness props=C20 cfg=KL tier=t to=900 mem=4 unwind=20 opts=nomem covers=2 funcs=InterfaceInner::sixlowpan_to_ipv6;SixlowpanIphcRepr::parse;SixlowpanUnresolvedAddress::resolve;Ipv6Repr::emit;SixlowpanUdpNhcRepr::parse;UdpRepr::emit_header bounds=receive-only_shape:_HLIM_1;_short_link_addresses_elided;_UDP-NHC_dst_port_0xf0XX;_every_field_value_symbolic;_payload<=4_octets;_one-entry_context_table
+    #[kani::proof]
+    pub(crate) fn lowpan_decompress_udp_ports1_ll() {
+        decompress_case(Shape { tf: 3, hlim: 1, cid: false, src: LlElided, dst: LlElided, sll: Short, dll: Short, up: nhc(1), plen: 4 });
+    }
+
+    // @harness props=C20 cfg=KL tier=t to=900 mem=4 unwind=20 opts=nomem covers=2 funcs=InterfaceInner::sixlowpan_to_ipv6;SixlowpanIphcRepr::parse;SixlowpanUnresolvedAddress::resolve;Ipv6Repr::emit;SixlowpanUdpNhcRepr::parse;UdpRepr::emit_header bounds=receive-only_shape:_hop_limit_in-line;_src_global;_dst_ffXX::XX:XXXX;_UDP-NHC_src_port_0xf0XX;_every_field_value_symbolic;_payload<=4_octets;_one-entry_context_table
+    #[kani::proof]
+    pub(crate) fn lowpan_decompress_udp_ports2_mc() {
+        decompress_case(Shape { tf: 3, hlim: 0, cid: false, src: Full, dst: Mc32, sll: Ext, dll: Short, up: nhc(2), plen: 2 });
+    }
+
+    // @harness props=C20 cfg=KL tier=t to=900 mem=4 unwind=20 opts=nomem covers=2 funcs=InterfaceInner::sixlowpan_to_ipv6;SixlowpanIphcRepr::parse;SixlowpanUnresolvedAddress::resolve;Ipv6Repr::emit;SixlowpanUdpNhcRepr::parse;UdpRepr::emit_header bounds=receive-only_shape:_HLIM_255;_src_16_bits;_dst_ffXX::XX:XXXX:XXXX;_TCP_header_only;_every_field_value_symbolic;_payload<=4_octets;_one-entry_context_table
+    #[kani::proof]
+    pub(crate) fn lowpan_decompress_tcp_mc48() {
+        decompress_case(Shape { tf: 3, hlim: 3, cid: false, src: Ll16, dst: Mc48, sll: Ext, dll: Short, up: TCP, plen: 0 });
+    }
+
+    // @harness props=C20 cfg=KL tier=q to=600 mem=4 unwind=20 opts=nomem covers=2 funcs=SixlowpanUdpNhcRepr::header_len;SixlowpanUdpNhcRepr::emit;SixlowpanUdpNhcPacket::set_ports bounds=every_port_pair_of_the_class_(both_ports_outside_0xf0XX);_4_payload_octets;_stale_buffer_arbitrary;_tx_checksumming_off
+    #[kani::proof]
+    pub(crate) fn lowpan_nhc_udp_emit_ports0() {
+        nhc_emit_case(0);
+    }
+
+    // @harness props=C20 cfg=KL tier=q to=600 mem=4 unwind=20 opts=nomem covers=2 funcs=SixlowpanUdpNhcRepr::header_len;SixlowpanUdpNhcRepr::emit;SixlowpanUdpNhcPacket::set_ports bounds=every_port_pair_of_the_class_(dst_port_0xf0XX,_src_not);_4_payload_octets;_stale_buffer_arbitrary;_tx_checksumming_off
+    #[kani::proof]
+    pub(crate) fn lowpan_nhc_udp_emit_ports1() {
+        nhc_emit_case(1);
+    }
+
+    // @harness props=C20 cfg=KL tier=q to=600 mem=4 unwind=20 opts=nomem covers=2 funcs=SixlowpanUdpNhcRepr::header_len;SixlowpanUdpNhcRepr::emit;SixlowpanUdpNhcPacket::set_ports bounds=every_port_pair_of_the_class_(src_port_0xf0XX,_not_both_0xf0bX);_4_payload_octets;_stale_buffer_arbitrary;_tx_checksumming_off
+    #[kani::proof]
+    pub(crate) fn lowpan_nhc_udp_emit_ports2() {
+        nhc_emit_case(2);
+    }
+
+    // @harness props=C20 cfg=KL tier=q to=600 mem=4 unwind=20 opts=nomem covers=2 funcs=SixlowpanUdpNhcRepr::header_len;SixlowpanUdpNhcRepr::emit;SixlowpanUdpNhcPacket::set_ports bounds=every_port_pair_of_the_class_(both_ports_0xf0bX);_4_payload_octets;_stale_buffer_arbitrary;_tx_checksumming_off
+    #[kani::proof]
+    pub(crate) fn lowpan_nhc_udp_emit_ports3() {
+        nhc_emit_case(3);
+    }
+
+    // @harness props=C20 cfg=KL tier=t to=1800 mem=8 unwind=20 opts=nomem covers=1 funcs=SixlowpanUdpNhcRepr::emit;SixlowpanUdpNhcPacket::set_checksum;checksum::pseudo_header_v6;checksum::data bounds=tx_checksumming_ON;_concrete_addresses_fe80::1->fe80::2;_ports_symbolic_(both_outside_0xf0XX);_2_symbolic_payload_octets;_reference_=_RFC_768/8200_sum_written_in_the_harness
+    #[kani::proof]
+    pub(crate) fn lowpan_nhc_udp_emit_checksum() {
+        let sport: u16 = kani::any();
+        let dport: u16 = kani::any();
+        kani::assume(sport >> 8 != 0xf0 && dport >> 8 != 0xf0);
+        let data: [u8; 2] = kani::any();
+        let mut s16 = [0u8; 16];
+        s16[0] = 0xfe;
+        s16[1] = 0x80;
+        s16[15] = 1;
+        let mut d16 = s16;
+        d16[15] = 2;
+        let repr = SixlowpanUdpNhcRepr(UdpRepr { src_port: sport, dst_port: dport });
+        let mut buf: [u8; 9] = kani::any();
+        repr.emit(
+            &mut SixlowpanUdpNhcPacket::new_unchecked(&mut buf[..]),
+            &Ipv6Address::from_octets(s16),
+            &Ipv6Address::from_octets(d16),
+            2,
+            |b| b.copy_from_slice(&data),
+            &ChecksumCapabilities::default(),
+        );
+        let want = ref_udp_checksum(&s16, &d16, sport, dport, &data);
+        crate::vdump!("ports {:04x} {:04x} data {:02x?} got {:02x?} want {:04x}", sport, dport, data, buf, want);
+        assert!(buf[0] == 0xf0, "prop:c20_udp_nhc_checksum_bit_matches_layout");
+        // (0x0000 and 0xffff are the same one's-complement value; RFC 768 wants 0xffff on the wire)
+        let got = ((buf[5] as u16) << 8) | buf[6] as u16;
+        assert!(got == want || (got == 0 && want == 0xffff), "prop:c20_udp_nhc_inline_checksum_is_the_udp_checksum");
+        kani::cover!(got != 0 && data[0] != 0, "checksum computed");
+    }
+
+    // @harness props=C20 cfg=KL tier=t to=900 mem=4 unwind=20 opts=nomem covers=1 funcs=InterfaceInner::sixlowpan_to_ipv6;UdpRepr::emit_header bounds=shape_of_lowpan_decompress_udp_ports0;_RFC_6282_4.3.2:_an_in-line_checksum_is_the_UDP_checksum_of_the_datagram_and_must_reappear_in_the_UDP_header
+    #[kani::proof]
+    pub(crate) fn lowpan_decompress_udp_checksum_kept() {
+        let s = S_UDP0;
+        let f = any_fields(&s);
+        let r802 = ieee_of(&s, &f);
+        let mut t = [0u8; TL];
+        let lay = tmpl(&s, &f, &mut t);
+        let mut out = [0u8; 64];
+        let r = InterfaceInner::sixlowpan_to_ipv6(&[], &r802, &t[..lay.len], None, &mut out[..]);
+        crate::vdump!("in-line checksum {:02x?}, UDP header {:02x?}", f.ck, &out[40..48]);
+        assert!(r.is_ok(), "prop:c20_well_formed_datagram_is_decompressed");
+        assert!(out[46] == f.ck[0] && out[47] == f.ck[1], "prop:c20_decompressed_udp_checksum_is_the_inline_checksum");
+        kani::cover!(f.ck[0] != 0, "non-zero checksum");
+    }
+
+    // @harness props=C20,C03 cfg=KL tier=t to=900 mem=4 unwind=20 opts=nomem covers=2 funcs=InterfaceInner::sixlowpan_to_ipv6;decompress_udp bounds=UDP-NHC_4-bit_ports_+_4_data_octets;_output_buffer_of_any_length_40..=64_(REASSEMBLY_BUFFER_SIZE_is_user-configurable):_too_small_a_buffer_must_be_an_error,_not_a_panic
+    #[kani::proof]
+    pub(crate) fn lowpan_decompress_udp_small_buffer() {
+        let s = S_UDP4;
+        let f = any_fields(&s);
+        let r802 = ieee_of(&s, &f);
+        let mut t = [0u8; TL];
+        let lay = tmpl(&s, &f, &mut t);
+        let mut out = [0u8; 64];
+        let blen = any_le(64);
+        kani::assume(blen >= 40);
+        crate::vdump!("output buffer {} octets, datagram needs 52", blen);
+        let r = InterfaceInner::sixlowpan_to_ipv6(&[], &r802, &t[..lay.len], None, &mut out[..blen]);
+        assert!(r.is_ok() == (blen >= 52), "prop:c20_short_output_buffer_is_an_error");
+        kani::cover!(r.is_ok(), "fits");
+        kani::cover!(r.is_err(), "refused");
+    }
+
+    // ---- arbitrary bytes behind a fixed IPHC base header: no panic, termination (unwinding assertions stay on), length bound
+    // @harness props=C03,C20 cfg=KL tier=q to=1500 mem=8 unwind=12 opts=fs128 covers=2 funcs=InterfaceInner::sixlowpan_to_ipv6;SixlowpanIphcPacket::check_len;SixlowpanIphcRepr::parse;decompress_ext_hdr;decompress_udp;decompress_next_header;SixlowpanUdpNhcRepr::parse;SixlowpanExtHeaderRepr::parse bounds=IPHC_7e_33_(TF=11_NH=1_HLIM=64_SAM=11_DAM=11:_10_free_octets_of_LOWPAN_NHC_(UDP_and_extension_headers))_+_10_arbitrary_octets,_any_prefix_length;_link-layer_addresses_None/absent/short/extended;_0_or_1_context;_total_len_None_or_40..=256;_128-octet_output_buffer
+    #[kani::proof]
+    pub(crate) fn lowpan_decompress_free_7e33() {
+        free_case::<12>(0x7e, 0x33);
+    }
+
+    // @harness props=C03,C20 cfg=KL tier=q to=1500 mem=8 unwind=12 opts=fs128 covers=2 funcs=InterfaceInner::sixlowpan_to_ipv6;SixlowpanIphcPacket::check_len;SixlowpanIphcRepr::parse;decompress_ext_hdr;decompress_udp;decompress_next_header;SixlowpanUdpNhcRepr::parse;SixlowpanExtHeaderRepr::parse bounds=IPHC_7f_f7_(NH=1_HLIM=255_CID=1_SAC=1_SAM=11_DAC=1_DAM=11_(context-based,_elided):_CID_octet_+_10_free_octets)_+_11_arbitrary_octets,_any_prefix_length;_link-layer_addresses_None/absent/short/extended;_0_or_1_context;_total_len_None_or_40..=256;_128-octet_output_buffer
+    #[kani::proof]
+    pub(crate) fn lowpan_decompress_free_7ff7() {
+        free_case::<13>(0x7f, 0xf7);
+    }
+
+    // @harness props=C03,C20 cfg=KL tier=q to=1500 mem=8 unwind=12 opts=fs128 covers=2 funcs=InterfaceInner::sixlowpan_to_ipv6;SixlowpanIphcPacket::check_len;SixlowpanIphcRepr::parse;decompress_ext_hdr;decompress_udp;decompress_next_header;SixlowpanUdpNhcRepr::parse;SixlowpanExtHeaderRepr::parse bounds=IPHC_68_4b_(TF=01_NH=0_HLIM=00_SAC=1_SAM=00_(unspecified)_M=1_DAM=11:_in-line_next_header,_hop_limit,_6_free_payload_octets)_+_12_arbitrary_octets,_any_prefix_length;_link-layer_addresses_None/absent/short/extended;_0_or_1_context;_total_len_None_or_40..=256;_128-octet_output_buffer
+    #[kani::proof]
+    pub(crate) fn lowpan_decompress_free_684b() {
+        free_case::<14>(0x68, 0x4b);
+    }
+
+    // @harness props=C03,C20 cfg=KL tier=t to=1500 mem=8 unwind=12 opts=fs128 covers=2 funcs=InterfaceInner::sixlowpan_to_ipv6;SixlowpanIphcPacket::check_len;SixlowpanIphcRepr::parse;decompress_ext_hdr;decompress_udp;decompress_next_header;SixlowpanUdpNhcRepr::parse;SixlowpanExtHeaderRepr::parse bounds=IPHC_65_2a_(TF=00_NH=1_HLIM=1_SAM=10_M=1_DAM=10)_+_12_arbitrary_octets,_any_prefix_length;_link-layer_addresses_None/absent/short/extended;_0_or_1_context;_total_len_None_or_40..=256;_128-octet_output_buffer
+    #[kani::proof]
+    pub(crate) fn lowpan_decompress_free_652a() {
+        free_case::<14>(0x65, 0x2a);
+    }
+
+    // @harness props=C03,C20 cfg=KL tier=t to=1500 mem=8 unwind=12 opts=fs128 covers=2 funcs=InterfaceInner::sixlowpan_to_ipv6;SixlowpanIphcPacket::check_len;SixlowpanIphcRepr::parse;decompress_ext_hdr;decompress_udp;decompress_next_header;SixlowpanUdpNhcRepr::parse;SixlowpanExtHeaderRepr::parse bounds=IPHC_72_a6_(TF=10_NH=0_HLIM=64_CID=1_SAM=10_DAC=1_DAM=10)_+_12_arbitrary_octets,_any_prefix_length;_link-layer_addresses_None/absent/short/extended;_0_or_1_context;_total_len_None_or_40..=256;_128-octet_output_buffer
+    #[kani::proof]
+    pub(crate) fn lowpan_decompress_free_72a6() {
+        free_case::<14>(0x72, 0xa6);
+    }
+
+    // @harness props=C03,C20 cfg=KL tier=t to=1500 mem=8 unwind=12 opts=fs128 covers=2 funcs=InterfaceInner::sixlowpan_to_ipv6;SixlowpanIphcPacket::check_len;SixlowpanIphcRepr::parse;decompress_ext_hdr;decompress_udp;decompress_next_header;SixlowpanUdpNhcRepr::parse;SixlowpanExtHeaderRepr::parse bounds=IPHC_7d_6c_(NH=1_HLIM=1_SAC=1_SAM=10_without_CID,_M=1_DAC=1_DAM=00_(unsupported_forms))_+_12_arbitrary_octets,_any_prefix_length;_link-layer_addresses_None/absent/short/extended;_0_or_1_context;_total_len_None_or_40..=256;_128-octet_output_buffer
+    #[kani::proof]
+    pub(crate) fn lowpan_decompress_free_7d6c() {
+        free_case::<14>(0x7d, 0x6c);
+    }
+
+    // @harness props=C03,C20 cfg=KL tier=t to=1500 mem=8 unwind=12 opts=fs128 covers=2 funcs=InterfaceInner::sixlowpan_to_ipv6;SixlowpanIphcPacket::check_len;SixlowpanIphcRepr::parse;decompress_ext_hdr;decompress_udp;decompress_next_header;SixlowpanUdpNhcRepr::parse;SixlowpanExtHeaderRepr::parse bounds=IPHC_7e_03_(SAM=00_(128_bits_in-line),_DAM=11:_2_free_NHC_octets)_+_18_arbitrary_octets,_any_prefix_length;_link-layer_addresses_None/absent/short/extended;_0_or_1_context;_total_len_None_or_40..=256;_128-octet_output_buffer
+    #[kani::proof]
+    pub(crate) fn lowpan_decompress_free_7e03() {
+        free_case::<20>(0x7e, 0x03);
+    }
+
+    // @harness props=C03,C20 cfg=KL tier=t to=1500 mem=8 unwind=12 opts=fs128 covers=2 funcs=InterfaceInner::sixlowpan_to_ipv6;SixlowpanIphcPacket::check_len;SixlowpanIphcRepr::parse;decompress_ext_hdr;decompress_udp;decompress_next_header;SixlowpanUdpNhcRepr::parse;SixlowpanExtHeaderRepr::parse bounds=IPHC_7a_31_(NH=0_SAM=11_DAM=01_(64_bits_in-line))_+_12_arbitrary_octets,_any_prefix_length;_link-layer_addresses_None/absent/short/extended;_0_or_1_context;_total_len_None_or_40..=256;_128-octet_output_buffer
+    #[kani::proof]
+    pub(crate) fn lowpan_decompress_free_7a31() {
+        free_case::<14>(0x7a, 0x31);
+    }
+
+    // @harness props=C03,C20 cfg=KL tier=t to=1500 mem=8 unwind=12 opts=fs128 covers=2 funcs=InterfaceInner::sixlowpan_to_ipv6;SixlowpanIphcPacket::check_len;SixlowpanIphcRepr::parse;decompress_ext_hdr;decompress_udp;decompress_next_header;SixlowpanUdpNhcRepr::parse;SixlowpanExtHeaderRepr::parse bounds=IPHC_79_44_(NH=0_HLIM=1_SAC=1_SAM=00,_DAC=1_DAM=00_(reserved))_+_12_arbitrary_octets,_any_prefix_length;_link-layer_addresses_None/absent/short/extended;_0_or_1_context;_total_len_None_or_40..=256;_128-octet_output_buffer
+    #[kani::proof]
+    pub(crate) fn lowpan_decompress_free_7944() {
+        free_case::<14>(0x79, 0x44);
+    }
+
+    // ---- 4. fragmentation on transmit
+    // @harness props=C20 cfg=KL tier=q to=1500 mem=8 unwind=20 opts=nomem,fs256 covers=2 funcs=InterfaceInner::dispatch_ieee802154;InterfaceInner::dispatch_sixlowpan;InterfaceInner::dispatch_ieee802154_frag;InterfaceInner::dispatch_sixlowpan_frag;SixlowpanFragRepr::emit;Ieee802154Repr::emit bounds=UDP_datagram_with_96_symbolic_payload_octets_(one_octet_more_than_fits_one_frame):_2_frames;_extended_link_addresses_symbolic;_ports_concrete;_tx_checksumming_off
+    #[kani::proof]
+    pub(crate) fn lowpan_frag_tx_96() {
+        frag_tx_case::<96>(2);
+    }
+
+    // @harness props=C20 cfg=KL tier=t to=1800 mem=8 unwind=20 opts=nomem,fs256 covers=2 funcs=InterfaceInner::dispatch_ieee802154;InterfaceInner::dispatch_sixlowpan;InterfaceInner::dispatch_ieee802154_frag;InterfaceInner::dispatch_sixlowpan_frag;SixlowpanFragRepr::emit bounds=UDP_datagram_with_184_symbolic_payload_octets:_exactly_two_full_frames
+    #[kani::proof]
+    pub(crate) fn lowpan_frag_tx_184() {
+        frag_tx_case::<184>(2);
+    }
+
+    // @harness props=C20 cfg=KL tier=t to=1800 mem=8 unwind=20 opts=nomem,fs256 covers=2 funcs=InterfaceInner::dispatch_ieee802154;InterfaceInner::dispatch_sixlowpan;InterfaceInner::dispatch_ieee802154_frag;InterfaceInner::dispatch_sixlowpan_frag;SixlowpanFragRepr::emit bounds=UDP_datagram_with_185_symbolic_payload_octets:_two_full_frames_+_1_octet_=_3_frames
+    #[kani::proof]
+    pub(crate) fn lowpan_frag_tx_185() {
+        frag_tx_case::<185>(3);
+    }
+
+    // @harness props=C20 cfg=KL tier=q to=1500 mem=8 unwind=20 opts=nomem,fs256 covers=1 funcs=InterfaceInner::dispatch_ieee802154;InterfaceInner::dispatch_sixlowpan bounds=datagram_1:_185_payload_octets_(3_frames),_first_frame_sent;_then_datagram_2_(96_payload_octets,_also_oversized)_is_dispatched_with_the_same_fragmenter,_as_Interface::socket_egress_does_for_the_next_socket
+    #[kani::proof]
+    pub(crate) fn lowpan_frag_busy() {
+        let hw: [u8; 8] = kani::any();
+        let peer: [u8; 8] = kani::any();
+        kani::assume(not_short_form(&hw) && not_short_form(&peer));
+        lowpan_env!(dev, iface, hw);
+        let Interface { inner, fragmenter, .. } = &mut iface;
+        let p1: [u8; 185] = kani::any();
+        let p2: [u8; 96] = kani::any();
+        let hdr = |n: usize| Ipv6Repr { src_addr: ll_ip(&hw), dst_addr: ll_ip(&peer), next_header: IpProtocol::Udp, payload_len: 8 + n, hop_limit: 64 };
+        let udp = UdpRepr { src_port: 0x1234, dst_port: 0xabcd };
+        let mut tx_a = TxState::<TXN>::new();
+        let tag1 = inner.tag;
+        inner.dispatch_ieee802154(Ieee802154Address::Extended(peer), CapTx { st: &mut tx_a }, PacketMeta::default(), Packet::new_ipv6(hdr(185), IpPayload::Udp(udp, &p1[..])), fragmenter);
+        kani::assume(tx_a.frames == 1 && fragmenter.packet_len == FH + 185 && fragmenter.sent_bytes == F1_LEN);
+        // datagram 1 still has 97 unsent octets in the fragmenter
+        inner.dispatch_ieee802154(Ieee802154Address::Extended(peer), CapTx { st: &mut tx_a }, PacketMeta::default(), Packet::new_ipv6(hdr(96), IpPayload::Udp(udp, &p2[..])), fragmenter);
+        crate::vdump!("after datagram 2: packet_len={} sent_bytes={} tag={:04x} (datagram 1: {} / {} / {:04x}), frames sent {}", fragmenter.packet_len, fragmenter.sent_bytes, fragmenter.sixlowpan.datagram_tag, FH + 185, F1_LEN, tag1, tx_a.frames);
+        assert!(fragmenter.packet_len == FH + 185 && fragmenter.sent_bytes == F1_LEN, "prop:c20_busy_fragmenter_keeps_datagram_in_progress");
+        assert!(fragmenter.sixlowpan.datagram_tag == tag1 && fragmenter.sixlowpan.datagram_size as usize == 48 + 185, "prop:c20_busy_fragmenter_keeps_datagram_in_progress");
+        let k = any_lt(FH + 185);
+        kani::assume(k >= F1_LEN);
+        assert!(fragmenter.buffer[k] == c_byte(k, &p1), "prop:c20_busy_fragmenter_keeps_unsent_octets");
+        kani::cover!(p1[100] != p2[91], "payloads differ where they overlap in the buffer");
+    }
+
+    // ---- 5. reassembly
+    // @harness props=C20,C03 cfg=KL tier=q to=1800 mem=8 unwind=20 opts=nomem,fs256 covers=4 funcs=InterfaceInner::process_sixlowpan_fragment;PacketAssemblerSet::get;PacketAssembler::add_with;PacketAssembler::add;PacketAssembler::assemble;InterfaceInner::sixlowpan_to_ipv6 bounds=ghost_datagram_of_64_octets_sent_as_FRAG1_+_2_FRAGN_(13-octet_frames);_slot_state_=_any_2_of_the_3_fragments_in_any_order;_step_=_any_genuine_fragment_(missing_or_duplicate)_or_a_fragment_with_foreign_tag_/_other_datagram_size_(>=48_for_FRAG1,_see_lowpan_frag_rx_free)_and_any_offset;_then_the_missing_fragment;_2_reassembly_slots_of_256_octets
+    #[kani::proof]
+    pub(crate) fn lowpan_frag_rx_step() {
+        let g = GhostD { sll: kani::any(), dll: kani::any(), sport: kani::any(), dport: kani::any(), ck: kani::any(), data: kani::any(), tag: kani::any() };
+        kani::assume(g.dport != 0);
+        let hw: [u8; 8] = g.dll;
+        lowpan_env!(dev, iface, hw);
+        let Interface { inner, fragments, .. } = &mut iface;
+        let r802 = ieee(Some(Ieee802154Address::Extended(g.sll)), Some(Ieee802154Address::Extended(g.dll)));
+        let off = |w: u8| if w == 1 { 6u8 } else { 7u8 };
+        // slot state: two distinct genuine fragments already received, in any order
+        let w1: u8 = kani::any();
+        let w2: u8 = kani::any();
+        kani::assume(w1 < 3 && w2 < 3 && w1 != w2);
+        let w3 = 3 - w1 - w2;
+        let (d1, _, _) = rx_feed(inner, fragments, &r802, &frag_frame(&g, w1, GD as u16, g.tag, off(w1)));
+        let (d2, _, _) = rx_feed(inner, fragments, &r802, &frag_frame(&g, w2, GD as u16, g.tag, off(w2)));
+        assert!(!d1 && !d2, "prop:c20_incomplete_datagram_not_delivered");
+        // the step
+        let kind: u8 = kani::any();
+        kani::assume(kind < 3);
+        let tag: u16 = kani::any();
+        let size: u16 = kani::any();
+        let offset: u8 = kani::any();
+        kani::assume(size < 2048);
+        let genuine = tag == g.tag && size == GD as u16;
+        if genuine {
+            kani::assume(offset == off(kind));
+        } else if kind == 0 {
+            kani::assume(size >= 48);
+        }
+        let (ds, ns, cs) = rx_feed(inner, fragments, &r802, &frag_frame(&g, kind, size, tag, offset));
+        if genuine {
+            assert!(ds == (kind == w3), "prop:c20_delivered_exactly_when_complete_in_any_order");
+            if ds {
+                assert_is_ghost(&g, ns, &cs);
+            }
+        } else if ds {
+            // a foreign fragment can only complete a datagram of its own (a FRAG1 that is the whole datagram)
+            assert!(kind == 0 && ns == size as usize, "prop:c20_foreign_fragment_delivers_nothing_of_the_datagram_in_progress");
+        }
+        // the slot of the datagram in progress is intact: the missing fragment completes it
+        if !(genuine && kind == w3) {
+            let (df, nf, cf) = rx_feed(inner, fragments, &r802, &frag_frame(&g, w3, GD as u16, g.tag, off(w3)));
+            assert!(df, "prop:c20_foreign_or_duplicate_fragment_does_not_disturb_reassembly");
+            if df {
+                assert_is_ghost(&g, nf, &cf);
+            }
+        }
+        kani::cover!(genuine && ds && w3 == 0, "completed by a late FRAG1");
+        kani::cover!(genuine && !ds, "duplicate fragment");
+        kani::cover!(!genuine && tag == g.tag && kind != 0, "FRAGN with the same tag but another datagram size");
+        kani::cover!(!genuine && ds, "foreign one-fragment datagram delivered");
+    }
+
+    // @harness props=C03,C20 cfg=KL tier=q to=1800 mem=8 unwind=12 opts=fs256 covers=2 funcs=InterfaceInner::process_sixlowpan_fragment;SixlowpanFragPacket::new_checked;SixlowpanFragPacket::get_key;PacketAssemblerSet::get;PacketAssembler::set_total_size;PacketAssembler::add_with;PacketAssembler::add;InterfaceInner::sixlowpan_to_ipv6 bounds=one_frame_of_<=15_octets_starting_with_a_FRAG1/FRAGN_dispatch:_datagram_size,_tag,_offset_arbitrary;_FRAG1_continues_with_IPHC_7e_33_+_<=9_arbitrary_octets,_FRAGN_with_<=10_arbitrary_octets;_link-layer_addresses_short_or_extended;_fresh_reassembly_buffers
+    #[kani::proof]
+    pub(crate) fn lowpan_frag_rx_free() {
+        let hw: [u8; 8] = kani::any();
+        lowpan_env!(dev, iface, hw);
+        let Interface { inner, fragments, .. } = &mut iface;
+        let mut bytes: [u8; 15] = kani::any();
+        kani::assume(bytes[0] >> 3 == 0b11000 || bytes[0] >> 3 == 0b11100);
+        if bytes[0] >> 3 == 0b11000 {
+            bytes[4] = 0x7e;
+            bytes[5] = 0x33;
+        }
+        let len = any_le(15);
+        let ll = |x: bool| if x { Ieee802154Address::Short(kani::any()) } else { Ieee802154Address::Extended(kani::any()) };
+        let r802 = ieee(Some(ll(kani::any())), Some(ll(kani::any())));
+        crate::vdump!("FRAME PAYLOAD {:02x?}", &bytes[..len]);
+        let r = inner.process_sixlowpan_fragment(&r802, &bytes[..len], fragments);
+        let delivered = r.is_some();
+        if let Some(d) = r {
+            assert!(d.len() >= 40, "prop:c20_delivered_datagram_has_an_ipv6_header");
+        }
+        kani::cover!(delivered, "a one-fragment datagram is delivered");
+        kani::cover!(!delivered && len == 15, "stored or dropped");
+    }
+
+    // @harness props=C03,C20 cfg=KL tier=q to=900 mem=8 unwind=12 opts=fs256 covers=1 funcs=InterfaceInner::process_sixlowpan_fragment;SixlowpanFragPacket::get_key bounds=a_well-formed_FRAGN_(datagram_size_64,_8_data_octets)_in_a_frame_whose_802.15.4_addressing_is_anything_Ieee802154Repr::parse_can_return_(None_for_reserved_addressing_modes_/_frame_version_0b11,_absent,_short,_extended)
+    #[kani::proof]
+    pub(crate) fn lowpan_frag_rx_any_addressing() {
+        let hw: [u8; 8] = kani::any();
+        lowpan_env!(dev, iface, hw);
+        let Interface { inner, fragments, .. } = &mut iface;
+        let d: [u8; 8] = kani::any();
+        let tag: [u8; 2] = kani::any();
+        let frame = [0xe0, 64, tag[0], tag[1], 6, d[0], d[1], d[2], d[3], d[4], d[5], d[6], d[7]];
+        let r802 = ieee(any_ll_opt(), any_ll_opt());
+        crate::vdump!("ll_src={:?} ll_dst={:?}", r802.src_addr, r802.dst_addr);
+        let r = inner.process_sixlowpan_fragment(&r802, &frame[..], fragments);
+        assert!(r.is_none(), "prop:c20_incomplete_datagram_not_delivered");
+        kani::cover!(r802.src_addr.is_some() && r802.dst_addr.is_some(), "addresses present");
+    }
+
+    // @harness props=C20 cfg=KL kind=mustfail tier=q to=600 mem=4 unwind=20 opts=nomem
+    #[kani::proof]
+    pub(crate) fn lowpan_must_fail() {
+        let s = S_ICMP_SHORT;
+        let f = any_fields(&s);
+        let r802 = ieee_of(&s, &f);
+        let mut t = [0u8; TL];
+        let lay = tmpl(&s, &f, &mut t);
+        let mut out = [0u8; 64];
+        let r = InterfaceInner::sixlowpan_to_ipv6(&[], &r802, &t[..lay.len], None, &mut out[..]);
+        assert!(r.is_ok() && out[39] != f.dll[7], "prop:deliberately_false_destination_iid_differs_from_link_address");
     }
 }
